@@ -11,29 +11,38 @@ from pbt.core import Result, pf_tol, silence, exc_sig, pf_outcome
 ID = "C12"
 LEVEL = "exploration"
 EXAMPLES = {"quick": 400, "thorough": 8000}
-DEADLINE_S = {"quick": 240, "thorough": 3000}
+DEADLINE_S = {"quick": 600, "thorough": 3000}   # cap only; chosen for a heavily loaded machine (import alone took > 120 s)
 SHRINK_S = {"quick": 25, "thorough": 90}
 TECHNIQUE = ("property-based testing: generated network + ConstControl/DFData profiles + OutputWriter selections, "
              "differential oracle (own per-step loop: plain pandas writes + fresh runpp/rundcpp on a deep copy)")
-RULE = ("Hypothesis draws a small network recipe (netgen.grid), 1-4 ConstControls on distinct (element, variable) pairs of "
-        "the documented writable set (load/sgen/storage p_mw, q_mvar, scaling; gen p_mw, vm_pu; ext_grid vm_pu, va_degree; "
-        "trafo/trafo3w tap_pos; line length_km, r_ohm_per_km, in_service) with DFData profiles of 2-6 rows (one shared or "
-        "one frame per controller, scalar or list element_index, scale_factor), a time-step sequence (all rows, a sub-range "
-        "or a permutation), an OutputWriter selection (default, constructor list or log_variable calls; whole columns or "
-        "index subsets) over the documented columns of res_bus/line/trafo/trafo3w/load/sgen/gen/ext_grid/storage, "
-        "recycle default/False and run=runpp/rundcpp. Oracle: for every time step the profile row is written with plain "
-        "pandas .loc into a deep copy of the pristine network, a fresh power flow (no recycle, no stored _ppc) is run and "
-        "the same cells are read; run_timeseries must not raise, ow.output must hold every requested '<table>.<column>' "
-        "frame with the element indices as columns and the time steps as index, and all values must agree (powers 1e-5 MVA "
-        "+1e-7 rel, vm 1e-8, va 1e-6, currents/loading 1e-6 rel; NaN == NaN). "
+RULE = ("Hypothesis draws a small network recipe (netgen.grid, own unbiased out-of-service / open-switch flags), 1-4 "
+        "ConstControls on distinct (element, variable) pairs of the documented writable set (load/sgen/storage p_mw, q_mvar, "
+        "scaling; gen p_mw, vm_pu; ext_grid vm_pu, va_degree; trafo/trafo3w tap_pos; line length_km, r_ohm_per_km, "
+        "in_service; half of the cases drive one recycle class only: PQ elements | gen/ext_grid | transformers | lines) with "
+        "DFData profiles of 2-6 rows (one shared or one frame per controller, scalar or list element_index, scale_factor, "
+        "controller recycle flag), a time-step sequence (all rows, a sub-range or a permutation; list or range), an "
+        "OutputWriter selection (default, constructor list or log_variable calls; whole columns, index subsets, the same "
+        "column twice with different subsets; batch-readable selections, arbitrary bus/branch columns, arbitrary columns "
+        "of res_bus/line/trafo/trafo3w/load/sgen/storage/gen/ext_grid, rarely of empty tables), recycle default/False, "
+        "run=runpp/rundcpp and a few power-flow options (calculate_voltage_angles, trafo_model, trafo_loading). "
+        "Oracle: for every time step the profile row (times scale_factor) is written with plain pandas .loc into a deep "
+        "copy of the pristine network, a fresh power flow (no recycle, no stored _ppc) is run and the same cells are read; "
+        "OutputWriter set-up and run_timeseries must not raise, ow.output must hold every requested '<table>.<column>' "
+        "frame with the time steps as index and the element indices as columns, and all values must agree (powers 1e-5 MVA "
+        "+1e-7 rel, vm 1e-8, va 1e-6, currents: power floor as current at the lowest voltage level + 1e-6 rel, loading "
+        "1e-4 % + 1e-6 rel; NaN == NaN). "
         "Non-trivial = reference converged at every step, >= 2 steps with different profile values that change at least "
         "one logged value, and the recycle path (dict recycle options; batch reading is labelled separately) was taken; "
         "distinct by case hash.")
 ASSUMPTIONS = ["tolerances of DESIGN.md sec. 1.6; solver tolerance_mva scaled with net.sn_mva and passed to both sides",
                "a reference step that does not converge / is rejected makes the case trivial (skipped)",
-               "voltage setpoints are only driven for gens/ext_grids that are the only voltage-controlling element of "
-               "their electrical node (conflicting setpoints are a documented rejection)",
+               "voltage / angle setpoints are only driven for gens/ext_grids that are the only voltage-controlling element "
+               "of their electrical node (conflicting setpoints are a documented rejection)",
                "controllers write disjoint cells (distinct (element, variable) pairs), so no write-order dependence",
+               "bool (in_service) profiles always get their own DFData frame (DFData: 'take care that the data is numeric'; "
+               "a mixed frame yields object rows and scale_factor is silently not applied)",
+               "P/Q of gens / ext_grids that share an electrical node with another voltage-controlling element are not "
+               "compared individually (the split is not unique, DESIGN sec. 5 rule 4)",
                "both sides are pandapower power flows (differential property by definition)"]
 
 PROFILE = netgen.profile(nb_max=9, nb_level=(1, 4), oos=0, open_prob=0.0, dcline=False, extra_branches=(0, 2),
@@ -211,7 +220,8 @@ def _case(draw, tier):
     # every single recycle flag (bus_pq / gen / trafo) is exercised on its own and not only in combinations
     classes = sorted({RECYCLE_CLASS[p[0]] for p in pairs})
     if len(classes) > 1 and draw(st.sampled_from([0, 1])):
-        cls = draw(st.sampled_from(classes))
+        # the rarer classes get more weight (PQ elements dominate the unfocused half anyway)
+        cls = draw(st.sampled_from([c for c in classes for _ in range({"pq": 1, "gen": 2, "trafo": 3, "line": 1}[c])]))
         pairs = [p for p in pairs if RECYCLE_CLASS[p[0]] == cls]
     chosen = draw(st.lists(st.sampled_from(pairs), min_size=1, max_size=min(4, len(pairs)), unique=True))
     rows = draw(st.integers(2, 6))
